@@ -25,6 +25,7 @@ import (
 	eth2p0 "github.com/attestantio/go-eth2-client/spec/phase0"
 	ssz "github.com/ferranbt/fastssz"
 	"google.golang.org/protobuf/proto"
+	"google.golang.org/protobuf/types/known/anypb"
 
 	"github.com/obolnetwork/charon/core"
 	pbv1 "github.com/obolnetwork/charon/core/corepb/v1"
@@ -53,7 +54,7 @@ func TestCheck(t *testing.T) {
 		"and, for unsigned data, through a real consensus component that is made to decide the value and stores it in a real DutyDB. " +
 		"prefix case = for every variant whose SSZ encoding starts with a value dependent byte (found by comparing encodings of several generated values), the values whose encoding starts with each JSON-like prefix ('{', white space + '{', '[', '\"', n/t/f, digit, '-', …), through all W1 oracles and the native wire context. " +
 		"sweep case = byte strings of every length 0..N (zeros / random / small header words) in one decoding context, plus ill-formed protobuf envelopes and raw frames for the parsigex handler. " +
-		"determinism case = one set built under 8 insertion orders on 8 goroutines, hashed like consensus hashes values, re-encoded by a receiver, and (half of the unsigned ones) decided by the real consensus component. non-trivial = at least one damaged input decoded without error and at least one was rejected; distinct = hash of the generated value")
+		"determinism case = one set (family by case index) built under 8 insertion orders on 8 goroutines; multi-entry unsigned sets additionally as 8 different wire encodings of the same value (entries ascending/descending/random, proto.Marshal, anypb.New) each of which must decode to an equal value and be admitted by the real consensus receive handler in a signed PRE-PREPARE; hashed like consensus hashes values, re-encoded by a receiver, and (half of the unsigned ones) decided by the real consensus component. non-trivial = at least one damaged input decoded without error and at least one was rejected; distinct = hash of the generated value")
 	r.Assume("a Byzantine cluster member holds a real share key, so a pure BLS mismatch (tbls.ErrSigNotVerified) is treated as passed by the verifier wrappers; every other verifier error ends the pipeline as in production")
 	r.Assume("operations are applied in production order; an operation returning an error ends the pipeline (the node drops the message there); after a panic the remaining operations of the same stage still run, later stages are not entered (unreachable in production)")
 	r.Assume("consensus value hash = SSZ hash root of the deterministic proto marshalling (replica of the unexported core/consensus/qbft.hashProto, identical to core/priority.hashProto); the replica is cross-checked by every consensus decision of the run: the real handler drops the harness' COMMITs unless its own hash of the value equals the replica's")
@@ -74,6 +75,8 @@ func TestCheck(t *testing.T) {
 	r.Require("stage:aggregated", int64(rounds)*5)
 	r.Require("wire_deliveries", int64(nCodec)*5)
 	r.Require("determinism_sets", int64(nDet)*9/10)
+	r.Require("wire_encodings_checked", int64(nDet))
+	r.Require("wire_encodings_differing_from_sorted", int64(nDet)/2)
 
 	ctxs := sweepContexts()
 	nSweep := len(ctxs) * r.N(1, 4)
@@ -813,8 +816,14 @@ func (cs *caseState) consensusDecide(in input, sigClass string, typ core.DutyTyp
 	r.Count("consensus_deliveries", 1)
 	r.Count("consensus_stage:"+stage, 1)
 	switch {
+	case stage == "refused-equal-value":
+		c.Violation("consensus-hash/depends-on-wire-encoding/"+typ.String(),
+			"the consensus receive handler refused a peer's COMMIT whose (single entry) value hashes to the signed value hash: "+cs.cons.lastErr,
+			cs.witness(map[string]any{"context": ctxName, "input": showBytes(in.Data)}))
+	case stage == "probe-error":
+		r.Inconclusive("case %d: consensus receive handler refused the probe message: %s", c.Idx, cs.cons.lastErr)
 	case !finished:
-		r.Inconclusive("case %d: consensus instance did not finish within the watchdog (stage %s)", c.Idx, stage)
+		r.Inconclusive("case %d: consensus instance did not finish within the watchdog although the handler admits the value (stage %s)", c.Idx, stage)
 		cs.cons.close()
 		cs.cons = nil
 	case pi != nil:
@@ -1142,6 +1151,117 @@ func hashProto(msg proto.Message) ([32]byte, []byte, error) {
 	return h, b, err
 }
 
+// wireEncodings is the oracle "the consensus hash of a value does not depend on how a peer happened
+// to serialise it". A consensus value is a protobuf map<pubkey,bytes>; protobuf leaves the order of map
+// entries on the wire open and anypb.New (what every released version sends) emits Go's random map
+// order. Several wire encodings of the SAME multi-entry set are built; each must (a) decode to an equal
+// value that re-encodes to the sender's hash and (b) be admitted by the real receive handler in a
+// validly signed PRE-PREPARE whose value_hash is the hash of the value.
+func wireEncodings(c *kit.Case, cw *consWire, duty core.DutyType, pb *pbv1.UnsignedDataSet, wit map[string]any) {
+	r := c.R
+	hash, detBytes, err := hashProto(pb)
+	if err != nil {
+		r.Inconclusive("case %d: hash of determinism set: %v", c.Idx, err)
+		return
+	}
+	keys := make([]string, 0, len(pb.GetSet()))
+	for k := range pb.GetSet() {
+		keys = append(keys, k)
+	}
+	sort.Strings(keys)
+	concat := func(order []string) []byte {
+		// the encodings of single entry sets, concatenated: protobuf merges them into one map
+		var out []byte
+		for _, k := range order {
+			b, err := proto.Marshal(&pbv1.UnsignedDataSet{Set: map[string][]byte{k: pb.GetSet()[k]}})
+			if err != nil {
+				return nil
+			}
+			out = append(out, b...)
+		}
+
+		return out
+	}
+	desc := append([]string(nil), keys...)
+	sort.Sort(sort.Reverse(sort.StringSlice(desc)))
+	shuffled := func() []string {
+		o := append([]string(nil), keys...)
+		c.Rng.Shuffle(len(o), func(i, j int) { o[i], o[j] = o[j], o[i] })
+
+		return o
+	}
+	type enc struct {
+		kind string
+		any  *anypb.Any
+	}
+	typeURL := ""
+	if a, err := anypb.New(&pbv1.UnsignedDataSet{}); err == nil {
+		typeURL = a.GetTypeUrl()
+	}
+	var encs []enc
+	add := func(kind string, b []byte) {
+		if b != nil {
+			encs = append(encs, enc{kind, &anypb.Any{TypeUrl: typeURL, Value: b}})
+		}
+	}
+	add("deterministic-marshal", detBytes)
+	add("entries-ascending", concat(keys))
+	add("entries-descending", concat(desc))
+	add("entries-random-order", concat(shuffled()))
+	add("entries-random-order", concat(shuffled()))
+	if b, err := proto.Marshal(pb); err == nil {
+		add("proto.Marshal", b)
+	}
+	for i := 0; i < 2; i++ {
+		if a, err := anypb.New(pb); err == nil { // exactly what released versions put on the wire
+			encs = append(encs, enc{"anypb.New", a})
+		}
+	}
+
+	for _, e := range encs {
+		r.Count("wire_encodings_checked", 1)
+		r.Seen("wire_encoding_kinds", e.kind)
+		if !bytes.Equal(e.any.GetValue(), detBytes) {
+			r.Count("wire_encodings_differing_from_sorted", 1)
+		}
+		w := map[string]any{"encoding": e.kind, "duty": duty.String(), "entries": len(keys), "wire_value": showBytes(e.any.GetValue()), "signed_value_hash": hex.EncodeToString(hash[:])}
+		for k, v := range wit {
+			w[k] = v
+		}
+		// (a) it is the same value
+		decoded := new(pbv1.UnsignedDataSet)
+		if err := e.any.UnmarshalTo(decoded); err != nil || !proto.Equal(decoded, pb) {
+			r.Inconclusive("case %d: harness built a wire encoding (%s) that is not the same value: %v", c.Idx, e.kind, err)
+			continue
+		}
+		var h2 [32]byte
+		set2, err := core.UnsignedDataSetFromProto(duty, decoded)
+		if err == nil {
+			var pb2 *pbv1.UnsignedDataSet
+			if pb2, err = core.UnsignedDataSetToProto(set2); err == nil {
+				h2, _, err = hashProto(pb2)
+			}
+		}
+		if err != nil || h2 != hash {
+			c.Violation("consensus-hash/wire-encoding-decodes-to-unequal-value/"+duty.String(),
+				fmt.Sprintf("a %s wire encoding of a %d entry set decodes/re-encodes to hash %x (err %v), the sender's hash is %x", e.kind, len(keys), h2[:6], err, hash[:6]), w)
+			continue
+		}
+		// (b) the receive path admits a peer's message carrying it
+		err = cw.admits(duty, msgPrePrepare, hash, e.any)
+		switch {
+		case err == nil:
+			r.Count("wire_encodings_admitted", 1)
+		case refusedEqualValue(err):
+			c.Violation("consensus-hash/depends-on-wire-encoding/"+duty.String(),
+				fmt.Sprintf("the consensus receive handler refused a validly signed PRE-PREPARE whose value (%d entries, wire form %s) equals the value the signed hash belongs to: %s", len(keys), e.kind, err), w)
+		default:
+			r.Count("wire_encodings_other_refusal", 1)
+			r.Inconclusive("case %d: consensus receive handler refused the message for another reason: %v", c.Idx, err)
+		}
+	}
+}
+
 func determinismCase(c *kit.Case, rg *rig) {
 	r := c.R
 	g := newGen(r.T(), rand.New(rand.NewSource(c.Rng.Int63())), rg.sigPool()) //nolint:gosec // reproducible workload
@@ -1164,7 +1284,7 @@ func determinismCase(c *kit.Case, rg *rig) {
 		{core.DutyBuilderRegistration, true, []string{"VersionedSignedValidatorRegistration"}, false},
 		{core.DutyProposer, true, []string{"VersionedSignedProposal"}, true},
 	}
-	fam := fams[c.Rng.Intn(len(fams))]
+	fam := fams[c.Idx%len(fams)] // every family in every run, whatever the seed
 	var pool []variant
 	for _, v := range allVariants() {
 		for _, kn := range fam.kinds {
@@ -1293,26 +1413,37 @@ func determinismCase(c *kit.Case, rg *rig) {
 				fmt.Sprintf("hash after decode+encode %x, sender hash %x", res[w].hash2[:6], res[0].hash[:6]), wit)
 		}
 	}
-	// The same set through the real consensus component: its handler accepts the harness' COMMITs only
-	// if the real (unexported) hashProto of the value equals the replica's hash.
-	if !fam.signed && res[0].err == nil && res[0].pi == nil && c.Rng.Intn(2) == 0 {
+	// The same set through the real consensus component.
+	if !fam.signed && res[0].err == nil && res[0].pi == nil {
 		set := core.UnsignedDataSet{}
 		for _, e := range entries {
 			set[e.pk] = e.v.(core.UnsignedData)
 		}
 		if pb, err := core.UnsignedDataSetToProto(set); err == nil {
 			if cw, err := rg.newConsWire(); err == nil {
-				stage, pi, finished := cw.decideSet(fam.duty, pb)
-				cw.close()
-				switch {
-				case !finished:
-					r.Inconclusive("case %d: consensus instance did not decide the determinism set (stage %s): replica hash rejected or watchdog", c.Idx, stage)
-				case pi != nil:
-					c.Violation("determinism/"+famName+"/consensus-decide-panics", fmt.Sprintf("panic %s at %s", pi.Value, pi.Site), wit)
-				default:
-					r.Count("determinism_consensus_decisions", 1)
-					r.Count("determinism_consensus_stage:"+stage, 1)
+				if len(pb.GetSet()) >= 2 {
+					wireEncodings(c, cw, fam.duty, pb, wit)
 				}
+				// A whole instance: its handler accepts the harness' COMMITs only if the real (unexported)
+				// hashProto of the value equals the replica's hash.
+				if c.Rng.Intn(2) == 0 {
+					stage, pi, finished := cw.decideSet(fam.duty, pb)
+					switch {
+					case stage == "refused-equal-value":
+						c.Violation("consensus-hash/depends-on-wire-encoding/"+fam.duty.String(),
+							fmt.Sprintf("the consensus receive handler refused a peer's COMMIT whose value (wrapped with anypb.New like every released version does, %d entries) hashes to the signed value hash: %s", len(pb.GetSet()), cw.lastErr), wit)
+					case stage == "probe-error":
+						r.Inconclusive("case %d: consensus receive handler refused the probe message: %s", c.Idx, cw.lastErr)
+					case !finished:
+						r.Inconclusive("case %d: consensus instance did not decide the determinism set within the watchdog although the handler admits the value (stage %s)", c.Idx, stage)
+					case pi != nil:
+						c.Violation("determinism/"+famName+"/consensus-decide-panics", fmt.Sprintf("panic %s at %s", pi.Value, pi.Site), wit)
+					default:
+						r.Count("determinism_consensus_decisions", 1)
+						r.Count("determinism_consensus_stage:"+stage, 1)
+					}
+				}
+				cw.close()
 			}
 		}
 	}
